@@ -123,7 +123,7 @@ const TYPEW: &[&str] = &[
 ];
 const COMPW: &[&str] = &["gz", "gzip", "bz2", "xz", "xzip", "lz4"];
 const OTHERW: &[&str] = &["1", "20230101", "old", "foo", "messages", "syslog"];
-const JUNKS: &[&str] = &["", "~", "-", ".", ",", "?", ";", "~~", "-."];
+const JUNKS: &[&str] = &["", "~", "-", ".", ",", "?", ";", "~~", "-.", ",,,", ";~-"];
 
 fn casev(s: &str, mode: usize) -> String {
     match mode {
@@ -195,7 +195,7 @@ pub fn run(tier: &str) {
             seqs.push(v);
         }
     }
-    let junks: &[&str] = if tier == "quick" || maxc >= 4 { &JUNKS[..7] } else { JUNKS };
+    let junks: &[&str] = if maxc >= 4 { &JUNKS[..9] } else { JUNKS };
     seqs.par_iter().for_each(|v| {
         let base = v.iter().map(|&w| words[w]).collect::<Vec<_>>().join(".");
         rep.distinct(hash64(&base));
@@ -205,6 +205,41 @@ pub fn run(tier: &str) {
                 for js in junks {
                     let name = format!("{}{}{}", jp, b, js);
                     check_name(&rep, &name);
+                }
+            }
+        }
+    });
+    // part 1b: a component with a non-UTF-8 byte is just an unrecognised component: it is skipped like `foo`
+    seqs.par_iter().for_each(|v| {
+        if v.len() > 2 {
+            return;
+        }
+        let base = v.iter().map(|&w| words[w]).collect::<Vec<_>>().join(".");
+        for stem in [&b"caf\xe9"[..], &b"\xff"[..], &b"a\xc3"[..]] {
+            for pos in 0..2 {
+                // non-UTF-8 component as the stem (leftmost) or as a rotation-like suffix
+                let mut name: Vec<u8> = vec![];
+                if pos == 0 {
+                    name.extend_from_slice(stem);
+                    name.push(b'.');
+                    name.extend_from_slice(base.as_bytes());
+                } else {
+                    name.extend_from_slice(b"x.");
+                    name.extend_from_slice(base.as_bytes());
+                    name.push(b'.');
+                    name.extend_from_slice(stem);
+                }
+                rep.eval(1);
+                let exp = reference(&format!("x.{}", base));
+                let mut p = b"/d/".to_vec();
+                p.extend_from_slice(&name);
+                let got = classify(Path::new(&OsString::from_vec(p)), true);
+                if got != exp {
+                    rep.violation(
+                        json!({"part":"non-utf8-component","position": if pos == 0 { "stem" } else { "suffix" }}),
+                        format!("name bytes {:?}: expected {:?} (the non-UTF-8 component is an unrecognised component), path_to_filetype says {:?}", String::from_utf8_lossy(&name), exp, got),
+                        json!({"engine":"E-SEQ","sub":"c16","name_b64": crate::out::b64(&name)}),
+                    );
                 }
             }
         }
